@@ -145,8 +145,23 @@ def relation(c, x, y):
     return rel
 
 
+def resolve_by(t, c, truth):
+    """Resolve every phi in t whose condition is c (or its negation) given that c has the given truth value."""
+    nc = neg_cond(c)
+
+    def f(n):
+        if n[0] == 'phi':
+            if n[1] == c:
+                return n[2] if truth else n[3]
+            if n[1] == nc:
+                return n[3] if truth else n[2]
+        return n
+    return map_term(t, f)
+
+
 def cases_deep(t, limit=512):
-    """Like cases(), but also lifts phis nested inside operators (the leaves are phi-free)."""
+    """Like cases(), but also lifts phis nested inside operators and conditions; a condition is decided once
+    per case (all phis testing it are resolved consistently). Leaves and conditions are phi-free."""
     out = []
 
     def first_phi(x):
@@ -160,11 +175,27 @@ def cases_deep(t, limit=512):
             raise OverflowError('too many cases')
         p = first_phi(x)
         if p is None:
+            # conditions may still contain phis: split on those too
+            for i, c in enumerate(conds):
+                q = first_phi(c)
+                if q is not None:
+                    for truth in (True, False):
+                        nconds = tuple(resolve_by(cc, q[1], truth) for cc in conds) + ((q[1] if truth else neg_cond(q[1])),)
+                        rec(resolve_by(x, q[1], truth), nconds, depth + 1)
+                    return
             out.append((conds, x))
             return
-        a = map_term(x, lambda n: p[2] if n == p else n)
-        b = map_term(x, lambda n: p[3] if n == p else n)
-        rec(a, conds + (p[1],), depth + 1)
-        rec(b, conds + (neg_cond(p[1]),), depth + 1)
+        c = p[1]
+        for truth in (True, False):
+            nx = resolve_by(x, c, truth)
+            nconds = tuple(resolve_by(cc, c, truth) for cc in conds) + ((c if truth else neg_cond(c)),)
+            rec(nx, nconds, depth + 1)
     rec(t, (), 0)
-    return out
+    # drop syntactically contradictory cases
+    res = []
+    for conds, leaf in out:
+        cs = set(conds)
+        if any(neg_cond(c) in cs for c in conds):
+            continue
+        res.append((conds, leaf))
+    return res
